@@ -162,6 +162,7 @@ func runC05(w *W) {
 			}
 		}
 		for v := 0; v < nRelayouts; v++ {
+			toggleGaps := v%2 == 1
 			var sb strings.Builder
 			changed := 0
 			// leading semicolons / whitespace
@@ -192,6 +193,16 @@ func runC05(w *W) {
 						first, _ := firstRune(gap)
 						if isSpaceRune(first) {
 							gap = pick(r, gapPool)
+							changed++
+						}
+					} else if !frozen[i+1] && toggleGaps && (punct(sp.Tok) || punct(spans[i+1].Tok)) && r.Chance(1, 3) {
+						// the amount of whitespace includes none at all: next to punctuation an empty gap may become a
+						// gap and a whitespace-only gap may vanish (the model lexer must certify the token sequence)
+						if gap == "" {
+							gap = pick(r, gapPool)
+							changed++
+						} else if strings.TrimFunc(gap, isSpaceRune) == "" {
+							gap = ""
 							changed++
 						}
 					}
@@ -336,4 +347,14 @@ func firstLineDiff(a, b string) string {
 		}
 	}
 	return "no difference"
+}
+
+// punct: tokens next to which whitespace is optional in SQL
+func punct(t token.Token) bool {
+	switch t {
+	case token.COMMA, token.LPAREN, token.RPAREN, token.LBRACKET, token.RBRACKET, token.EQ, token.NEQ, token.LT, token.GT, token.LTE, token.GTE,
+		token.PLUS, token.ASTERISK, token.SLASH, token.PERCENT, token.CONCAT, token.SEMICOLON, token.QUESTION, token.COLON:
+		return true
+	}
+	return false
 }
